@@ -110,16 +110,23 @@ AsciiParse(b) ==
       (* first token starting at or after byte offset o *)
       TokFrom(o) == Cardinality({k \in 1 .. NT : S[k] < o}) + 1
       (* n lists "d x_1 .. x_d" from token k: [ok, k, items] *)
-      RECURSIVE Lists(_, _)
-      Lists(k, n) ==
-        IF n = 0 THEN [ok |-> TRUE, k |-> k, items |-> <<>>]
-        ELSE IF k > NT THEN [ok |-> FALSE, k |-> k, items |-> <<>>]
-        ELSE LET d == N(k) IN
-             IF d.mag < 0 \/ d.neg \/ k + d.mag > NT THEN [ok |-> FALSE, k |-> k, items |-> <<>>]
-             ELSE LET it == [i \in 1 .. d.mag |-> N(k + i)]
-                      r  == Lists(k + 1 + d.mag, n - 1)
-                  IN [ok |-> r.ok /\ \A i \in 1 .. d.mag : it[i].mag >= 0 /\ ~it[i].neg, k |-> r.k,
-                      items |-> <<[i \in 1 .. d.mag |-> it[i].mag]>> \o r.items]
+      (* one list per step, in nested blocks (shallow recursion, see RunChunks in OVMB.tla) *)
+      ListStep(r) ==
+        IF r.k > NT THEN [r EXCEPT !.ok = FALSE]
+        ELSE LET d == N(r.k) IN
+             IF d.mag < 0 \/ d.neg \/ r.k + d.mag > NT THEN [r EXCEPT !.ok = FALSE]
+             ELSE LET it == [i \in 1 .. d.mag |-> N(r.k + i)] IN
+                  IF \E i \in 1 .. d.mag : it[i].mag < 0 \/ it[i].neg THEN [r EXCEPT !.ok = FALSE]
+                  ELSE [ok |-> TRUE, k |-> r.k + 1 + d.mag, left |-> r.left - 1,
+                        items |-> Append(r.items, [i \in 1 .. d.mag |-> it[i].mag])]
+      ListsDone(r) == ~r.ok \/ r.left = 0
+      RECURSIVE Lists1(_, _)
+      Lists1(r, c) == IF c = 0 \/ ListsDone(r) THEN r ELSE Lists1(ListStep(r), c - 1)
+      RECURSIVE Lists2(_, _)
+      Lists2(r, c) == IF c = 0 \/ ListsDone(r) THEN r ELSE Lists2(Lists1(r, 64), c - 1)
+      RECURSIVE Lists3(_)
+      Lists3(r) == IF ListsDone(r) THEN r ELSE Lists3(Lists2(r, 64))
+      Lists(k, n) == Lists3([ok |-> TRUE, k |-> k, left |-> n, items |-> <<>>])
       (* section "Keyword n" at token k: [ok, n] *)
       Sect(k, kw) ==
         IF k + 1 > NT \/ Upper(T(k)) # kw THEN [ok |-> FALSE, n |-> 0]
